@@ -8,7 +8,7 @@ func c08Specs(tier string) []*Spec {
 	bounds := append([][]byte{nil, {}}, probesFor(keys)...)
 	small := [][]byte{nil, {}, []byte("a"), []byte("aa"), []byte("ab"), []byte("b"), []byte("b\x00"), {0x01}}
 	add := func(name string, cfg Cfg, depth, maint int, b [][]byte) {
-		a := Alpha{Writes: true, Save: true, Rollback: true, Reopen: stdReopen, DelTo: true, LVFO: true, MaxVersions: 3}
+		a := Alpha{Writes: true, Save: true, Rollback: true, Reopen: stdReopen, DelTo: true, LVFO: true, LoadVersion: true, MaxVersions: 3}
 		specs = append(specs, &Spec{ID: "C08", Name: name, Cfg: cfg, Keys: keys, Vals: bs("x", ""), MaxDepth: depth, MaxMaint: maint,
 			Alphabet: a.Ops, Oracles: []Oracle{oracleIter(b)}})
 	}
